@@ -341,6 +341,12 @@ RULESETS = {
     "pade": PADE,
     "padeb": PADE_B,
     "expm_tail": EXPM_TAIL,
+    "rotorder": [
+        Rule("rot.assign", r'\*\s*this\s*=\s*Rotate\s*\(', 'su_assign_rotate(self,', min=1),
+        Rule("rot.angle", r'\bparam\s*\.\s*GetMixingAngle\s*\(', 'Const_GetMixingAngle(param,', min=1),
+        Rule("rot.phase", r'\bparam\s*\.\s*GetPhase\s*\(', 'Const_GetPhase(param,', min=1),
+        Rule("rot.dim", r'(?<![\w.>])dim\b', 'self->dim', min=1),
+    ],
     "eigsys": [
         Rule("eig.closed_form", r'#\s*include\s*<SQuIDS/SU_inc/EigenSystemSU3\.txt>', 'sq_closed_form_su3(self,eigenvalues,eigenvectors);', min=1),
         Rule("eig.getmatrix", r'auto\s+matrix\s*=\s*\(\s*\*\s*this\s*\)\s*\.\s*GetGSLMatrix\s*\(\s*\)\s*;', 'gsl_matrix_complex* matrix_=su_GetGSLMatrix(self);', min=1),
